@@ -6,6 +6,7 @@ import impl_hist  # noqa: F401
 from framework import Case
 
 PROP = "C12"
+GENERATED = ['SharedState']  # generated files this check's tie depends on
 LEAN_MODULES = ["Properties.C12"]
 RULE = (
     "corpus; histories over functions and methods with a provider object / \"self\" / an object that does not implement the protocol / "
@@ -22,19 +23,19 @@ def gen(rng, tier) -> str:
     sh = rng.sample(SHAPES, 3)
     for i, s in enumerate(sh):
         steps.append(f"A|T{i}|FloatTensor,0,{s}")
-    kinds = {"p1": "fresh", "p2": "long", "p3": "bad"}
+    kinds = {"p1": "fresh", "p2": "long", "p3": rng.choice(["bad", "bad", "badfalsy"]), "p4": "falsy"}
     for pid, kind in kinds.items():
         steps.append(f"V|{pid}|{kind}|{rng.choice(['', 'k:3', 'k:3;n:4', 'a:2;k:3', 'z:9'])}")
     fns = {}
     for fid in ("f1", "f2", "f3", "f4"):
-        pid = rng.choice(["p1", "p2", "p2", "p3", "self:p1", "self:p2", "self:p3", "selfraw", "-"])
+        pid = rng.choice(["p1", "p2", "p2", "p3", "p4", "p4", "self:p1", "self:p2", "self:p3", "self:p4", "selfraw", "-"])
         al = rng.randrange(3)
         ret = "-" if rng.random() < 0.6 else f"T{rng.randrange(3)}:0"
         steps.append(f"D|{fid}|{pid}|x=T{al}:0|{ret}|-")
         fns[fid] = (al, ret)
     for _ in range(10 if tier == "quick" else 30):
         if rng.random() < 0.3:
-            steps.append(f"S|{rng.choice(['p1', 'p2', 'p3'])}|{rng.choice(['', 'k:3', 'k:5', 'k:3;n:4', 'k:4;n:2', 'a:2;k:3'])}")
+            steps.append(f"S|{rng.choice(['p1', 'p2', 'p3', 'p4'])}|{rng.choice(['', 'k:3', 'k:5', 'k:3;n:4', 'k:4;n:2', 'a:2;k:3'])}")
             continue
         fid = rng.choice(list(fns))
         al, ret = fns[fid]
@@ -69,3 +70,9 @@ def judge(case, impl_out, spec):
 
 def nontrivial(case, impl_out):
     return impl_out.count("calls=") >= 2
+
+
+def search(run, tier):
+    from checks import c09
+
+    c09.search(run, tier)
